@@ -1,5 +1,7 @@
 package main
 
+import "github.com/karino2/folang/pkg/frt"
+
 import "fmt"
 
 type IorS interface {
